@@ -151,7 +151,7 @@ def explore_contract(c, E=None, mutate=None):
 
         def body(ctx):
             I = Interp(E, ctx)
-            inp = c.args(I, case) if case is not None else c.args(I)
+            inp = c.args(I, case) if c.cases != (None,) else c.args(I)
             ctx.inp = inp
             pre_objs = set()
 
@@ -193,6 +193,11 @@ def explore_contract(c, E=None, mutate=None):
             stats[{"return": "returns", "raise": "raises"}.get(pr.outcome, "loop_steps")] = stats.get({"return": "returns", "raise": "raises"}.get(pr.outcome, "loop_steps"), 0) + 1
             inp = getattr(pr.ctx, "inp", {})
             mt = c.model_terms(inp) if inp else {}
+            for ti, (label, kind) in enumerate(pr.ctx.trivial):
+                rec = ObRecord(f"{c.id}{case_tag}/p{pi}/t{ti}:{label}", kind, label, c.target, f"path {pi} ({pr.outcome})", None, {}, c)
+                rec.result = {"status": "proved", "solver": "pyvc-evaluation", "time_s": 0.0}
+                rec.case = case
+                records.append(rec)
             for oi, ob in enumerate(pr.ctx.obligations):
                 oid = f"{c.id}{case_tag}/p{pi}/{oi}:{ob.label}"
                 q = list(ob.pc) + [z3.Not(ob.goal)]
@@ -213,8 +218,9 @@ def lemma_records(l):
 
 
 def discharge_records(records, budget_s, nproc=None):
-    jobs = [{"id": r.id, "query": r.query, "model_terms": r.model_terms} for r in records]
+    jobs = [{"id": r.id, "query": r.query, "model_terms": r.model_terms} for r in records if r.result is None]
     res = solve.discharge(jobs, budget_s=budget_s, nproc=nproc)
     for r in records:
-        r.result = res[r.id]
+        if r.result is None:
+            r.result = res[r.id]
     return records
